@@ -26,14 +26,14 @@ Theorem C14_model_tables_shortest :
 Proof. exact cwalk_is_follow. Qed.
 Print Assumptions C14_model_tables_shortest.
 
-(* Part 3: on the hardware model, for every description under ID routing and on both networks: the number
+(* Part 3: on the hardware model, for every description under ID routing and on every physical network (`net_ok d nt`): the number
    of routers a flit traverses from s0's router r0 to t is exactly (length of a shortest path from r0 to t)
    minus one -- `p` below is the verified reference oracle's path, minimal among all paths of the graph
    (RefOracle.sp_ref_min).  Hypotheses as for C02_hw_delivered. *)
 From FV Require Import Build RefOracle HwProofs BuildProofs.
 Theorem C14_hw_shortest :
   forall (d : desc) (g : graph) (c : compiled) (ri : rinfo) (n : netlist) (t : cni) (id : Z) (nt : net),
-    nt = Req \/ nt = Rsp ->
+    net_ok d nt ->
     build d = Ok g -> compile d g = Ok c -> gen_routing_info sp_reference c = Ok ri -> emit c ri = Ok n ->
     d_algo d = ID -> In t (c_nis c) -> id_num (cn_id t) = Ok id ->
     (forall u p, is_router c u -> sp_reference g u (cn_name t) = Some p -> forall x, In x (removelast p) -> is_router c x) ->
